@@ -6,6 +6,7 @@ package cronmc
 import (
 	"fmt"
 	"sort"
+	"strings"
 	"time"
 
 	metav1 "k8s.io/apimachinery/pkg/apis/meta/v1"
@@ -24,7 +25,10 @@ import (
 
 // JC describes one JobConfig of a population.
 type JC struct {
-	Name      string   `json:"name"`
+	Name string `json:"name"`
+	// NS is the namespace ("" = default). A JobConfig is identified by ID(): the bare name in the
+	// default namespace, namespace/name elsewhere.
+	NS        string   `json:"ns,omitempty"`
 	Exprs     []string `json:"exprs"`
 	TZ        string   `json:"tz,omitempty"`
 	NotBefore *int     `json:"notBefore,omitempty"` // seconds from T0
@@ -34,6 +38,21 @@ type JC struct {
 	// Persisted status/spec fields (C04).
 	LastScheduled *int `json:"lastScheduled,omitempty"` // seconds relative to T0 (usually negative)
 	LastUpdated   *int `json:"lastUpdated,omitempty"`
+}
+
+// ID identifies the JobConfig in emissions and in the reference.
+func (j JC) ID() string {
+	if j.NS == "" || j.NS == "default" {
+		return j.Name
+	}
+	return j.NS + "/" + j.Name
+}
+
+func (j JC) namespace() string {
+	if j.NS == "" {
+		return "default"
+	}
+	return j.NS
 }
 
 // Pop is a population of JobConfigs sharing one scheduler.
@@ -66,7 +85,7 @@ type Harness struct {
 type recorder struct{ h *Harness }
 
 func (r recorder) EnqueueJobConfig(jc *execution.JobConfig, t time.Time) error {
-	r.h.Out = append(r.h.Out, Emission{JC: jc.Name, T: t})
+	r.h.Out = append(r.h.Out, Emission{JC: JC{Name: jc.Name, NS: jc.Namespace}.ID(), T: t})
 	return nil
 }
 
@@ -97,7 +116,7 @@ func at(t0 time.Time, off *int) *metav1.Time {
 func (j JC) Object(t0 time.Time) *execution.JobConfig {
 	jc := &execution.JobConfig{
 		TypeMeta:   metav1.TypeMeta{APIVersion: "execution.furiko.io/v1alpha1", Kind: "JobConfig"},
-		ObjectMeta: metav1.ObjectMeta{Namespace: "default", Name: j.Name},
+		ObjectMeta: metav1.ObjectMeta{Namespace: j.namespace(), Name: j.Name},
 		Spec: execution.JobConfigSpec{
 			Template:    execution.JobTemplateSpec{Spec: execution.JobTemplate{TaskTemplate: execution.TaskTemplate{Pod: podTemplate()}}},
 			Concurrency: execution.ConcurrencySpec{Policy: execution.ConcurrencyPolicyAllow},
@@ -214,7 +233,7 @@ func newRefJC(j JC, p Pop, t0 time.Time) *refJC {
 		} else {
 			r.plain = append(r.plain, nil)
 		}
-		ex, err := parser.Parse(e, "default/"+j.Name)
+		ex, err := parser.Parse(e, j.namespace()+"/"+j.Name)
 		if err != nil {
 			panic(fmt.Sprintf("reference: cannot parse %q: %v", e, err))
 		}
@@ -316,7 +335,7 @@ func NewRef(p Pop, t0 time.Time, start time.Time) *Ref {
 	for _, j := range p.JCs {
 		rj := newRefJC(j, p, t0)
 		rj.cursor = start
-		r.JCs[j.Name] = rj
+		r.JCs[j.ID()] = rj
 	}
 	return r
 }
@@ -420,7 +439,11 @@ func (h *Harness) CheckHeap(r *Ref, window time.Duration) string {
 			// evaluated in the JobConfig's effective zone.
 			next, ok = j.trustedNext(j.cursor, window)
 		}
-		idx, present := d.Names["default/"+name]
+		heapName := "default/" + name
+		if strings.Contains(name, "/") {
+			heapName = name
+		}
+		idx, present := d.Names[heapName]
 		switch {
 		case ok && !present:
 			return fmt.Sprintf("%s is due next at %s but is not in the heap", name, rel(next))
